@@ -163,6 +163,7 @@ class Interp:
         self.method_hook = None
         self.skip_functions = set()  # 'Class.method' names whose calls are no-ops in the model
         self.module_globals = {}
+        self.class_attrs = {}  # (module, class, attr) -> value assigned to a class attribute during lifting
         self.overrides.setdefault("set", lambda x=(): self._make_set(x, set))
         self.overrides.setdefault("frozenset", lambda x=(): self._make_set(x, frozenset))
         self.instantiable = set()  # names of repository classes that may be instantiated from source
@@ -250,6 +251,18 @@ class Interp:
                 self.assign(st.target, self.eval(st.value, env, mod), env, mod)
         elif isinstance(st, ast.AugAssign):
             cur = self.eval(_load(st.target), env, mod)
+            if isinstance(cur, list) and isinstance(st.op, ast.Add):
+                cur.extend(self.iterate(self.eval(st.value, env, mod), st.value))  # in place, like list.__iadd__
+                return
+            if isinstance(cur, set) and isinstance(st.op, (ast.Sub, ast.BitOr, ast.BitAnd)):
+                rhs = self.eval(st.value, env, mod)
+                if isinstance(st.op, ast.Sub):
+                    cur -= rhs
+                elif isinstance(st.op, ast.BitOr):
+                    cur |= rhs
+                else:
+                    cur &= rhs
+                return
             v = self.binop(type(st.op), cur, self.eval(st.value, env, mod), st)
             self.assign(st.target, v, env, mod)
         elif isinstance(st, ast.Return):
@@ -408,6 +421,10 @@ class Interp:
             obj = self.eval(target.value, env, mod)
             if isinstance(obj, Obj):
                 obj.attrs[target.attr] = value
+            elif isinstance(obj, (ClassInfo, ModelledClass)):
+                # class attribute assigned at run time (e.g. the per-class counter of Counted)
+                k = obj.info if isinstance(obj, ModelledClass) else obj
+                self.class_attrs[(k.module.name, k.name, target.attr)] = value
             else:
                 raise Unsupported(f"attribute store on {type(obj).__name__}")
         else:
@@ -439,7 +456,9 @@ class Interp:
         f = _BINOPS.get(op)
         if f is None:
             raise Unsupported(f"operator {op.__name__}")
-        if op is ast.BitOr and (isinstance(a, (ClassInfo, TypeUnion, ModelledClass)) or (callable(a) and a in _PYTYPES) or isinstance(b, (ClassInfo, TypeUnion, ModelledClass))):
+        _alias = getattr(self, "pytype_alias", None) or {}
+        _is_t = lambda x: isinstance(x, (ClassInfo, TypeUnion, ModelledClass, type)) or (callable(x) and not isinstance(x, Obj) and (x in _PYTYPES or x in _alias))  # noqa: E731
+        if op is ast.BitOr and (_is_t(a) or _is_t(b)) and not isinstance(a, (set, dict)) and not isinstance(b, (set, dict)):
             la = list(a) if isinstance(a, TypeUnion) else [a]
             lb = list(b) if isinstance(b, TypeUnion) else [b]
             return TypeUnion(la + lb)
@@ -507,7 +526,10 @@ class Interp:
             return BUILTINS[name]
         if name in mod.imports:
             imp = mod.imports[name]
-            return Obj("extmodule", name=imp[1] if imp[0] == "module" else f"{imp[1]}.{imp[2]}")
+            full = imp[1] if imp[0] == "module" else f"{imp[1]}.{imp[2]}"
+            if full in STDLIB:
+                return STDLIB[full]
+            return Obj("extmodule", name=full)
         raise Unsupported(f"unresolved name {name} in {mod.name}")
 
     def entity_value(self, r, mod, name):
@@ -563,6 +585,20 @@ class Interp:
             raise Unsupported(f"attribute {attr} of a UFL value ({norm(node)})")
         if isinstance(obj, Obj) and obj.kind == "super":
             cur, slf = obj.attrs["_cls"], obj.attrs["_self"]
+            if isinstance(slf, ModelledClass):
+                slf = slf.info
+            if isinstance(slf, ClassInfo):
+                # super() inside __new__ / a classmethod: the first argument is the class
+                mro = slf.mro()
+                if cur not in mro:
+                    raise Unsupported("super(): class not in MRO of cls")
+                for k in mro[mro.index(cur) + 1 :]:
+                    if attr in k.methods:
+                        m = k.methods[attr]
+                        return Closure(m.node, Env(), m.module, self, cls=m.cls, name=f"{k.name}.{attr}")
+                if attr == "__new__":
+                    return self.object_new
+                raise Unsupported(f"super().{attr} not found (class context)")
             k0 = slf.attrs.get("__class__") if isinstance(slf, Obj) else None
             if not isinstance(k0, ClassInfo):
                 raise Unsupported("super() on an object without a modelled class")
@@ -574,10 +610,14 @@ class Interp:
                     return BoundMethod(self, k.methods[attr], slf)
             if attr == "__init__":
                 return lambda *a, **kw: None
+            if attr == "__new__":
+                return self.object_new
             raise Unsupported(f"super().{attr} not found")
         if isinstance(obj, Obj):
             if attr in obj.attrs:
                 return obj.attrs[attr]
+            if obj.kind == "extmodule" and f"{obj.attrs.get('name')}.{attr}" in STDLIB:
+                return STDLIB[f"{obj.attrs['name']}.{attr}"]
             k = obj.attrs.get("__class__")
             if isinstance(k, ClassInfo):
                 r = self.prog.lookup(k, attr)
@@ -590,6 +630,14 @@ class Interp:
                     return BoundMethod(self, r, obj)
                 if isinstance(r, ast.AST):
                     return self.eval(r, Env(), k.module)
+                if self.class_attrs:
+                    for kk in k.mro():
+                        if (kk.module.name, kk.name, attr) in self.class_attrs:
+                            return self.class_attrs[(kk.module.name, kk.name, attr)]
+                if getattr(self, "type_model", None) is not None:
+                    r = self.ufl_type_attr(k, attr, obj)
+                    if r is not NotImplemented:
+                        return r
                 if obj.attrs.get("__initialised_from_source__"):
                     # the object's attributes were all produced by lifting its own __init__: a missing
                     # attribute is an AttributeError at run time
@@ -605,6 +653,10 @@ class Interp:
             return self.entity_value(r, obj, attr)
         if isinstance(obj, ModelledClass):
             obj = obj.info
+        if isinstance(obj, ClassInfo) and self.class_attrs:
+            for k in obj.mro():
+                if (k.module.name, k.name, attr) in self.class_attrs:
+                    return self.class_attrs[(k.module.name, k.name, attr)]
         if isinstance(obj, ClassInfo) and attr == "__name__":
             return obj.name
         if isinstance(obj, ClassInfo) and attr == "_ufl_typecode_":
@@ -621,20 +673,18 @@ class Interp:
                 return self.eval(r, Env(), obj.module)
             if attr == "__new__":
                 # no __new__ in the repository MRO: object.__new__
-                def object_new(cls, *a, **k):
-                    if isinstance(cls, ModelledClass):
-                        cls = cls.info
-                    o = Obj(cls.name, __class__=cls)
-                    if getattr(self, "on_instantiate", None) is not None:
-                        self.on_instantiate(o, cls)
-                    return o
-
-                return object_new
+                return self.object_new
+            if attr == "__init__":
+                return lambda *a, **k: None  # object.__init__
             raise Unsupported(f"class attribute {obj.name}.{attr}")
+        if isinstance(obj, bytes) and attr in _SAFE_METHODS["bytes"]:
+            return getattr(obj, attr)
         if isinstance(obj, (tuple, list, dict, str, set, frozenset)):
             tn = next((n for n in ("tuple", "list", "dict", "str", "set", "frozenset") if isinstance(obj, __builtins__[n] if isinstance(__builtins__, dict) else getattr(__builtins__, n))), type(obj).__name__)
             if attr in _SAFE_METHODS.get(tn, ()):
                 return getattr(obj, attr)
+        if isinstance(obj, type) and attr == "__name__":
+            return "float" if obj is Fraction else obj.__name__
         if isinstance(obj, Fraction) and attr in ("real", "imag", "conjugate", "numerator", "denominator"):
             return getattr(obj, attr)
         if isinstance(obj, int) and attr in ("real", "imag", "conjugate"):
@@ -644,6 +694,30 @@ class Interp:
         if getattr(type(obj), "__lift_host__", False) and not attr.startswith("_"):
             return getattr(obj, attr)
         raise Unsupported(f"attribute {attr} on {type(obj).__name__} ({norm(node)})")
+
+    def ufl_type_attr(self, k, attr, obj=None):
+        """class attributes attached by the @ufl_type decorator (from the type model)"""
+        tm = self.type_model
+        if attr == "_ufl_class_":
+            # the decorated class itself; Coefficient etc. subclass user-side only
+            return k
+        if k.name not in tm.types:
+            for kk in k.mro():
+                if kk.name in tm.types:
+                    k = kk
+                    break
+            else:
+                return NotImplemented
+        t = tm.get(k.name)
+        if attr == "_ufl_typecode_":
+            return k.name
+        if attr == "_ufl_handler_name_":
+            return t.handler
+        if attr.startswith("_ufl_") and attr.endswith("_") and attr[5:-1] in t.traits:
+            return t.traits[attr[5:-1]]
+        if attr == "_hash" and obj is not None and t.traits.get("is_expr"):
+            return obj.attrs.setdefault("_hash", None)
+        return NotImplemented
 
     def _dx(self, t, ii):
         raise Unsupported(".dx needs a rule-specific model")
@@ -670,6 +744,11 @@ class Interp:
                 raise LiftRaise("IndexError", node)
             except TypeError:
                 raise Unsupported(f"subscript {key!r} on {type(obj).__name__}")
+        if isinstance(obj, dict) and getattr(type(obj), "__lift_host__", False):
+            try:
+                return obj[_hashable(key)]
+            except KeyError:
+                raise LiftRaise(f"KeyError: {key!r}", node)
         if isinstance(obj, dict):
             k = _hashable(key)
             if k not in obj:
@@ -697,11 +776,32 @@ class Interp:
     def e_List(self, e, env, mod):
         return list(self._elts(e.elts, env, mod))
 
+    # ---- containers: plain Python ones, or value-semantics ones (sa/containers.py) ----------------
+    def enable_value_containers(self, set_order="fifo"):
+        from .containers import VDefaultDict, VDict, VSet
+
+        self.value_containers = True
+        self.set_order = set_order
+        self.overrides["set"] = lambda x=(): VSet(self, _it(x), self.set_order)
+        self.overrides["frozenset"] = lambda x=(): VSet(self, _it(x), self.set_order, frozen=True)
+        self.overrides["dict"] = lambda *a, **k: VDict(self, list(dict(*a, **k).items()) if not (a and isinstance(a[0], VDict)) else a[0].items())
+        self.overrides["defaultdict"] = lambda factory=None: VDefaultDict(self, factory)
+        self._VDict, self._VSet = VDict, VSet
+        self.pytype_alias = {self.overrides["set"]: set, self.overrides["frozenset"]: (set, frozenset), self.overrides["dict"]: dict, self.overrides["defaultdict"]: dict}
+
+    def new_dict(self):
+        return self._VDict(self) if getattr(self, "value_containers", False) else {}
+
+    def new_set(self, items):
+        if getattr(self, "value_containers", False):
+            return self._VSet(self, items, self.set_order)
+        return set(_hashable(x) for x in items)
+
     def e_Set(self, e, env, mod):
-        return set(_hashable(x) for x in self._elts(e.elts, env, mod))
+        return self.new_set(self._elts(e.elts, env, mod))
 
     def e_Dict(self, e, env, mod):
-        d = {}
+        d = self.new_dict()
         for k, v in zip(e.keys, e.values):
             if k is None:
                 d.update(self.eval(v, env, mod))
@@ -794,10 +894,23 @@ class Interp:
                     return None, True
         return None, False
 
-    def instantiate(self, cls, args, kwargs):
+    def object_new(self, cls, *a, **k):
+        if isinstance(cls, ModelledClass):
+            cls = cls.info
         o = Obj(cls.name, __class__=cls)
         if getattr(self, "on_instantiate", None) is not None:
             self.on_instantiate(o, cls)
+        return o
+
+    def instantiate(self, cls, args, kwargs):
+        new = self.prog.lookup(cls, "__new__") if getattr(self, "honor_new", False) else None
+        if isinstance(new, FuncInfo):
+            o = self.call_function(new, [cls] + list(args), dict(kwargs))
+            k = o.attrs.get("__class__") if isinstance(o, Obj) else None
+            if not (isinstance(k, ClassInfo) and k.is_subclass_of(cls.name)):
+                return o  # __new__ returned something else: __init__ is not called
+        else:
+            o = self.object_new(cls)
         init = self.prog.lookup(cls, "__init__")
         if isinstance(init, FuncInfo):
             self.call_function(init, list(args), dict(kwargs), self_obj=o)
@@ -810,7 +923,10 @@ class Interp:
         k = self.obj_class(x)
         if k is None:
             return True
+        tm = getattr(self, "type_model", None)
         for c in k.mro():
+            if tm is not None and c.name in tm.types and c.ufl_type_kwargs is not None and not c.ufl_type_kwargs.get("_root") and tm.get(c.name).traits.get("use_default_hash", True):
+                return True  # @ufl_type attaches compute_expr_hash as __hash__
             if "__hash__" in c.methods:
                 return True
             if "__hash__" in c.assigns:
@@ -876,6 +992,8 @@ class Interp:
         raise LiftRaise(f"TypeError: '{self._DUNDER[op]}' not supported between instances", node)
 
     def contains(self, item, container, node):
+        if getattr(type(container), "__lift_host__", False) and isinstance(container, (set, dict)):
+            return item in container
         if isinstance(container, (set, frozenset, dict)):
             if not self.is_hashable_obj(item):
                 raise LiftRaise(f"TypeError: unhashable type: '{self.obj_class(item).name}'", node)
@@ -928,7 +1046,78 @@ class Interp:
         return Closure(e, env, mod, self)
 
     def e_JoinedStr(self, e, env, mod):
-        return "<fstring>"
+        if not getattr(self, "fstrings", False):
+            return "<fstring>"
+        out = []
+        for part in e.values:
+            if isinstance(part, ast.Constant):
+                out.append(str(part.value))
+                continue
+            v = self.eval(part.value, env, mod)
+            if part.conversion == ord("r"):
+                txt = self.py_repr(v, part)
+            elif part.conversion == ord("s") or part.format_spec is None:
+                txt = self.py_str(v, part)
+            else:
+                spec = self.e_JoinedStr(part.format_spec, env, mod)
+                if isinstance(v, (Obj, T, sym.Ex)):
+                    raise Unsupported(f"format spec on abstract value ({norm(part)})")
+                txt = format(float(v) if isinstance(v, Fraction) else v, spec)
+            out.append(txt)
+        return "".join(out)
+
+    # ---- repr / str with the object model (lifted __repr__ / __str__ of repository classes) ----
+    def py_repr(self, v, node=None):
+        if isinstance(v, Obj):
+            if "__repr__" in v.attrs:
+                r = v.attrs["__repr__"]
+                return r() if callable(r) else r
+            k = self.obj_class(v)
+            if k is not None:
+                m, _ = self.find_method(k, "__repr__")
+                if m is not None:
+                    return self.call_function(m, [], {}, self_obj=v)
+                return f"<{k.name} object>"
+            raise Unsupported(f"repr() of abstract object {v.kind}")
+        if isinstance(v, (T, sym.Ex)):
+            raise Unsupported("repr() of a symbolic value")
+        if isinstance(v, bool) or v is None or isinstance(v, (int, str, complex)):
+            return repr(v)
+        if isinstance(v, Fraction):
+            return repr(float(v))
+        if isinstance(v, float):
+            return repr(v)
+        if isinstance(v, tuple):
+            if len(v) == 1:
+                return "(" + self.py_repr(v[0], node) + ",)"
+            return "(" + ", ".join(self.py_repr(x, node) for x in v) + ")"
+        if isinstance(v, list):
+            return "[" + ", ".join(self.py_repr(x, node) for x in v) + "]"
+        if isinstance(v, dict):
+            return "{" + ", ".join(f"{self.py_repr(a, node)}: {self.py_repr(b, node)}" for a, b in v.items()) + "}"
+        if isinstance(v, (set, frozenset)):
+            raise Unsupported("repr() of a set (iteration order)")
+        if isinstance(v, bytes):
+            return repr(v)
+        if isinstance(v, ClassInfo):
+            return f"<class '{v.module.name}.{v.name}'>"
+        if getattr(type(v), "__lift_host__", False):
+            return repr(v)
+        raise Unsupported(f"repr() of {type(v).__name__}")
+
+    def py_str(self, v, node=None):
+        if isinstance(v, str):
+            return v
+        if isinstance(v, Obj):
+            if "__str__" in v.attrs:
+                r = v.attrs["__str__"]
+                return r() if callable(r) else r
+            k = self.obj_class(v)
+            if k is not None:
+                m, _ = self.find_method(k, "__str__")
+                if m is not None:
+                    return self.call_function(m, [], {}, self_obj=v)
+        return self.py_repr(v, node)
 
     def e_NamedExpr(self, e, env, mod):
         v = self.eval(e.value, env, mod)
@@ -958,10 +1147,10 @@ class Interp:
         return tuple(self.e_ListComp(e, env, mod))
 
     def e_SetComp(self, e, env, mod):
-        return set(_hashable(x) for x in self.e_ListComp(e, env, mod))
+        return self.new_set(self.e_ListComp(e, env, mod))
 
     def e_DictComp(self, e, env, mod):
-        out = {}
+        out = self.new_dict()
         self._comp(e.generators, env, mod, lambda en: out.__setitem__(_hashable(self.eval(e.key, en, mod)), self.eval(e.value, en, mod)))
         return out
 
@@ -999,6 +1188,11 @@ class Interp:
             r = self.isinstance_hook(x, cls)
             if r is not NotImplemented:
                 return r
+        if isinstance(cls, type):
+            return isinstance(x, cls)  # host model classes (e.g. the ndarray model)
+        alias = getattr(self, "pytype_alias", None)
+        if alias and not isinstance(cls, (ClassInfo, Obj)) and callable(cls) and cls in alias:
+            return isinstance(x, alias[cls])
         if cls in _PYTYPES:
             pt = _PYTYPES[cls]
             if pt is float:
@@ -1082,7 +1276,8 @@ _SAFE_METHODS = {
     "tuple": ("index", "count"),
     "list": ("index", "count", "append", "extend", "insert", "pop", "copy", "reverse", "sort"),
     "dict": ("get", "items", "keys", "values", "copy", "update", "setdefault", "pop"),
-    "str": ("join", "format", "startswith", "endswith", "split", "lower", "upper", "strip"),
+    "str": ("join", "format", "startswith", "endswith", "split", "lower", "upper", "strip", "encode", "replace", "rstrip", "lstrip", "isdigit"),
+    "bytes": ("hex", "decode"),
     "set": ("add", "union", "copy", "update", "discard", "remove"),
     "frozenset": ("union",),
 }
@@ -1094,6 +1289,22 @@ class TypeUnion(tuple):
 
 def _b_isinstance(x, cls):
     raise Unsupported("isinstance is handled by Interp.call")
+
+
+def _b_issubclass(a, b):
+    if isinstance(a, ModelledClass):
+        a = a.info
+    if isinstance(b, (tuple, list)):
+        return any(_b_issubclass(a, x) for x in b)
+    if isinstance(b, ModelledClass):
+        b = b.info
+    if isinstance(a, ClassInfo) and isinstance(b, ClassInfo):
+        return a is b or a.is_subclass_of(b.name)
+    if isinstance(a, type) and isinstance(b, type):
+        return issubclass(a, b)
+    if isinstance(a, ClassInfo) or isinstance(b, ClassInfo):
+        return False
+    raise Unsupported(f"issubclass({a!r}, {b!r})")
 
 
 def _b_sum(seq, start=0):
@@ -1203,6 +1414,7 @@ BUILTINS = {
     "map": lambda f, *a: [f(*xs) for xs in zip(*[_it(x) for x in a])],
     "filter": lambda f, a: [x for x in _it(a) if (f(x) if f else x)],
     "isinstance": _b_isinstance,
+    "issubclass": _b_issubclass,
     "slice": slice,
     "Ellipsis": Ellipsis,
     "True": True,
@@ -1222,6 +1434,29 @@ BUILTINS = {
     "divmod": divmod,
     "round": round,
     "pow": pow,
+}
+
+class _Chain:
+    __lift_host__ = True
+
+    def __call__(self, *its):
+        return [x for it in its for x in _it(it)]
+
+    def from_iterable(self, its):
+        return [x for it in _it(its) for x in _it(it)]
+
+
+# documented standard-library semantics used by the analysed code (trusted models)
+STDLIB = {
+    "numbers.Integral": BUILTINS["int"],
+    "numbers.Real": BUILTINS["float"],
+    "numbers.Number": BUILTINS["float"],
+    "itertools.chain": _Chain(),
+    "itertools.count": __import__("itertools").count,
+    "itertools.product": lambda *a, repeat=1: list(__import__("itertools").product(*[_it(x) for x in a], repeat=repeat)),
+    "collections.defaultdict": __import__("collections").defaultdict,
+    "functools.cmp_to_key": __import__("functools").cmp_to_key,
+    "functools.reduce": __import__("functools").reduce,
 }
 
 _PYTYPES = {
